@@ -1,0 +1,25 @@
+//go:build verif
+
+package observations
+
+// Contracts for the govc verifier (/verif). Comment-only.
+
+// ---- C15: the saved form of the metrics and tracing sections ----
+//@ func (cfg *MetricsConfig) toJSONConfig
+//@   property C15
+//@   requires cfg != nil
+//@   ensures res != nil && fresh(res)
+//@   ensures [enable-stats] res.EnableStats == cfg.EnableStats
+//@   ensures [prometheus-endpoint] res.PrometheusEndpoint == cfg.PrometheusEndpoint.String()
+//@   ensures [reporting-interval] res.ReportingInterval == cfg.ReportingInterval.String()
+//@   modifies nothing
+
+//@ func (cfg *TracingConfig) toJSONConfig
+//@   property C15
+//@   requires cfg != nil
+//@   ensures res != nil && fresh(res)
+//@   ensures [enable-tracing] res.EnableTracing == cfg.EnableTracing
+//@   ensures [jaeger-agent-endpoint] res.JaegerAgentEndpoint == cfg.JaegerAgentEndpoint.String()
+//@   ensures [sampling-prob] res.SamplingProb == cfg.SamplingProb
+//@   ensures [service-name] res.ServiceName == cfg.ServiceName
+//@   modifies nothing
